@@ -960,6 +960,16 @@ class ConnectedShape(DefinedShape):
             return False
         if abs(float(self) - float(other)) > 1e-6:
             return False
+        if len(self.subshapes) != len(other.subshapes):
+            return False
+        othe_subshapes = list(other.subshapes)
+        for subshape in self.subshapes:
+            for j, osbshape in enumerate(othe_subshapes):
+                if subshape == osbshape:
+                    othe_subshapes.pop(j)
+                    break
+            else:
+                return False
         return True
 
     def __invert__(self) -> DisjointShape:
